@@ -102,7 +102,7 @@ def run_mc(model, constants, workers=8, timeout=3600, cfg=None):
     finally:
         os.unlink(cfgpath)
     outp = r.stdout
-    open(os.path.join(cdir, "tlc.out"), "w").write("\n".join(l for l in outp.splitlines() if not l.startswith('<<"REPLAY"')))
+    open(os.path.join(cdir, "tlc.out"), "w").write("\n".join(l for l in outp.splitlines() if not l.startswith(('<<"REPLAY"', '<<"TABLES"'))))
     if "Model checking completed. No error has been found." not in outp:
         tail = "\n".join(l for l in outp.splitlines() if not l.startswith('<<"REPLAY"'))[-4000:]
         shutil.rmtree(cdir, ignore_errors=True)
@@ -122,6 +122,10 @@ def run_mc(model, constants, workers=8, timeout=3600, cfg=None):
             case["id"] = cfg[3:].lower() + "-" + hid
             f.write(json.dumps(case, separators=(",", ":")) + "\n")
             ncases += 1
+    tables = None
+    for js in tagged_lines(outp, "TABLES"):
+        tables = os.path.join(cdir, "tables.json")
+        open(tables, "w").write(js)
     # vacuity guard: every action of the model must have been taken
     never = re.findall(r"<(\w+) line \d+, col \d+ to line \d+, col \d+ of module \w+>: 0:0", outp)
     res = dict(model=cfg, constants=constants, cases=cases_path, ncases=ncases, states=distinct,
@@ -129,6 +133,7 @@ def run_mc(model, constants, workers=8, timeout=3600, cfg=None):
     if ncases == 0:
         raise ToolError("model %s exported no behaviour" % model)
     res["cases"] = os.path.join(final_cdir, "cases.jsonl")
+    res["tables"] = os.path.join(final_cdir, "tables.json") if tables else None
     json.dump(res, open(os.path.join(cdir, "meta.json"), "w"))
     try:
         os.rename(cdir, final_cdir)
@@ -207,3 +212,11 @@ def validate_traces(traces, par=8):
         viols.extend(v)
         events += e
     return viols, events
+
+
+def run_sweep(binary, which, tables, name, stride=1, timeout=3600):
+    """Native full-domain sweep against an interval table exported from the specification."""
+    r = sh([binary, "sweep", which, tables, name, str(stride)], timeout=timeout)
+    if r.returncode != 0:
+        raise ToolError("sweep %s failed:\n%s" % (which, r.stdout[-2000:]))
+    return json.loads(r.stdout.strip().splitlines()[-1])
